@@ -11,7 +11,7 @@ import (
 
 func init() {
 	Register("C04", "Decides structural necessary conditions of 'GetAST() reports exactly what the source says': (ovf) numeric rule values cannot wrap while being parsed; (names) AST rule names are Type().String() of the stored constraint, which equals the accepted source spelling (registry table), iterated in insertion order; (snapshot) the AST is built from the loaded tree before any compilation step rewrites the rules; (collect) collectASTRules forwards every rule except the two documented special cases; (raw) each rule's AST value is a loss-free rendering of the rule's source bytes. Does NOT decide the homomorphism source->tree for nested lists, notes, or child order.",
-		c04ovf, c01registryAs("C04.names"), c04snapshot, c04collect, c04raw, c04note, func(c *core.Ctx) { c03unquoteAs(c, "C04.unquote") })
+		c04ovf, c01registryAs("C04.names"), c04snapshot, c04collect, c04raw, c04note, func(c *core.Ctx) { c03unquoteAs(c, "C04.unquote") }, asciiBlankRule("C04.asciiblank"), decodeOnceRule("C04.decodeonce"))
 }
 
 func c01registryAs(R string) RuleFunc {
